@@ -16,5 +16,16 @@ AVAIL = [
         why="a machine released exactly now is free (busy_until == time)"),
     Lit("machine-eligible", "eq", cells={"proc_times", "next_op"}, op="!=0", conj=False,
         why="processing time 0 encodes 'not eligible'"),
-    Lit("wait-when-done", "cell", key="done", sign=+1, conj=False, why="padding action stays open for finished instances"),
+    Lit("wait-when-done", "cell", key="done", sign=+1, conj=False, alt=True, why="padding action stays open for finished instances"),
+]
+
+# FFSP: literals of the action_mask value written by _update_step_state (wait action = last column)
+FFSP = [
+    Lit("job-in-current-stage", "eq", cells={"job_location", "sub_time_idx"}, op="==0", why="a job is offered only on a machine of its current stage"),
+    Lit("job-not-waiting", "eq", cells={"job_wait_step"}, op="==0", why="a job whose previous stage is still running is not offered"),
+    Lit("wait-if-job-in-previous-stage", "cmp", big={"sub_time_idx"}, small={"job_location"}, strict=True, conj=False, alt=True, const=0,
+        why="waiting is offered while some job still sits in an earlier stage"),
+    Lit("wait-if-job-waiting-in-stage", "cmp", big={"job_wait_step"}, small=set(), strict=True, conj=False, alt=True, const=0,
+        why="waiting is offered while a job of this stage is still being processed in the preceding stage"),
+    Lit("wait-when-done", "cell", key="done", sign=+1, conj=False, alt=True, why="finished instances can always take the wait action"),
 ]
